@@ -61,6 +61,12 @@ structure Entry where
   defn : Def
 deriving Repr, Inhabited
 
+/-- the descriptor a registered name stands for: the alias, or a reference to the struct. -/
+def ctdOf (ent : Entry) (name : Bytes) : TD :=
+  match ent.defn with
+  | .alias a => a
+  | .struct _ _ => .ref name
+
 abbrev Env := List Entry
 
 def Env.find? (env : Env) (name : Bytes) : Option Entry :=
@@ -324,7 +330,7 @@ def enc (env : Env) (td : TD) (v : Val) (fnum : Nat) (bare byteOpt : Bool) : Enc
       match env.find? name with
       | none => .error .unregistered
       | some ent =>
-        let ctd : TD := match ent.defn with | .alias a => a | .struct _ _ => .ref name
+        let ctd : TD := ctdOf ent name
         do
         let buf2 ←
           if !isStructOrUnpacked env ctd then do
@@ -412,7 +418,7 @@ def marshal (env : Env) (name : Bytes) (v : Val) : EncM Bytes :=
   match env.find? name with
   | none => .error .unregistered
   | some ent =>
-    let td : TD := match ent.defn with | .alias a => a | .struct _ _ => .ref name
+    let td : TD := ctdOf ent name
     if !isStructOrUnpacked env td then do
       let value ← enc env td v 0 false false
       pure (fieldBytes 1 (typ3 env td) value false)
@@ -531,6 +537,30 @@ def isASCIIText (bs : Bytes) : Bool := !bs.isEmpty && bs.all fun b => 32 ≤ b.t
 def fullnameOf (bs : Bytes) : Option Bytes :=
   if bs.contains 47 then some ((bs.reverse.takeWhile (· != 47)).reverse) else none
 
+/-- the optional second field of an Any (`Value`, field 2, ByteLength), which must end
+the envelope: the payload and the bytes the Go code adds to `n` for key + length prefix. -/
+def decAnyValue (rest : Bytes) : Option (Bytes × Nat) :=
+  if rest.isEmpty then some ([], 0) else
+  match decKeyRaw rest with
+  | none => none
+  | some (num2, t2, kn2) =>
+    if num2 ≠ 2 ∨ t2 ≠ 2 then none else
+    match decBytes (rest.drop kn2) with
+    | none => none
+    | some (value, vn) =>
+      if (rest.drop (kn2 + vn)).isEmpty then some (value, kn2 + (vn - value.length)) else none
+
+/-- the implicit-struct key (`field 1`, the concrete type's typ3) in front of an Any value
+whose concrete type is not a struct / unpacked list; its length. -/
+def anyValueHdr (env : Env) (ctd : TD) (value : Bytes) : Option Nat :=
+  if !isStructOrUnpacked env ctd then
+    match decKeyRaw value with
+    | none => none
+    | some (n1, t1, k1) =>
+      if n1 ≠ 1 then none
+      else if t1 ≠ (typ3 env ctd).code then none else some k1
+  else some 0
+
 mutual
 /-- `decodeReflectBinary(bz, info, rv, fopts{BinFieldNum: fnum}, bare, options, anyDepth)`
 → the decoded value and the count `n` the Go code reports (see the header for
@@ -590,17 +620,7 @@ def decIface (env : Env) : Nat → Bytes → Bytes → Bool → Nat → Option (
         | none => none
         | some (url, un) =>
           let rest := bz.drop (kn + un)
-          -- second field: Value
-          let valueR : Option (Bytes × Nat) :=
-            if rest.isEmpty then some ([], 0) else
-            match decKeyRaw rest with
-            | none => none
-            | some (num2, t2, kn2) =>
-              if num2 ≠ 2 ∨ t2 ≠ 2 then none else
-              match decBytes (rest.drop kn2) with
-              | none => none
-              | some (value, vn) =>
-                if (rest.drop (kn2 + vn)).isEmpty then some (value, kn2 + (vn - value.length)) else none
+          let valueR := decAnyValue rest
           match valueR with
           | none => none
           | some (value, n2) =>
@@ -612,21 +632,13 @@ def decIface (env : Env) : Nat → Bytes → Bytes → Bool → Nat → Option (
                 match env.find? name with
                 | none => none
                 | some ent =>
-                  let ctd : TD := match ent.defn with | .alias a => a | .struct _ _ => .ref name
+                  let ctd : TD := ctdOf ent name
                   if !(ent.ifaces.contains id) then none
                   else if value.isEmpty then
                     some (.any name (zeroOf env ctd), pn + kn + un + n2)
                   else
                     let wrapped := !isStructOrUnpacked env ctd
-                    let hdr : Option Nat :=
-                      if wrapped then
-                        match decKeyRaw value with
-                        | none => none
-                        | some (n1, t1, k1) =>
-                          if n1 ≠ 1 then none
-                          else if t1 ≠ (typ3 env ctd).code then none else some k1
-                      else some 0
-                    match hdr with
+                    match anyValueHdr env ctd value with
                     | none => none
                     | some hn =>
                       match dec env k ctd (value.drop hn) 1 (!wrapped) false depth with
@@ -735,7 +747,7 @@ def unmarshalF (fuel : Nat) (env : Env) (name : Bytes) (bz : Bytes) : Option Val
   match env.find? name with
   | none => none
   | some ent =>
-    let td : TD := match ent.defn with | .alias a => a | .struct _ _ => .ref name
+    let td : TD := ctdOf ent name
     let su := isStructOrUnpacked env td
     if bz.isEmpty && !su then some (zeroOf env td)
     else
